@@ -462,7 +462,34 @@ fn run_behaviour(b: &Value, db: &std::path::Path, kill: bool, prop: &'static str
             }
             _ => {
                 let h = host.as_mut().ok_or_else(|| format!("{act} without a running node"))?;
-                h.exec(step)?
+                match h.exec(step) {
+                    Ok(obs) => obs,
+                    Err(e) if e.starts_with("stuck:") => {
+                        // The specification says the step is enabled, the code did not get to its
+                        // next schedule point. Decide WHY without a clock: release every parked
+                        // process. If the node then runs to the end of the marker session, the step
+                        // was waiting for something a parked process holds, i.e. the code takes a
+                        // lock / a path the specification does not know at this step.
+                        match h.exec(&json!({"act": "Settle"})) {
+                            Ok(settled) => {
+                                findings.push(Finding {
+                                    property: prop,
+                                    signature: format!("conformance-step-structure:{act}"),
+                                    detail: format!(
+                                        "{act} is enabled in the specification but the code blocked until the other parked \
+                                         processes were released ({e}): the model no longer describes the code's step structure"
+                                    ),
+                                });
+                                if !walk.window_done {
+                                    findings.extend(walk.judge_settled(&settled));
+                                }
+                                break;
+                            }
+                            Err(e2) => return Err(format!("{e}; and the node does not run when released either: {e2}")),
+                        }
+                    }
+                    Err(e) => return Err(e),
+                }
             }
         };
         let fs = walk.compare(step, &obs, prop);
